@@ -885,6 +885,11 @@ func (w *world) Quiet(e *sim.Env) bool {
 			return true
 		}
 	}
+	if w.mode == "conc" || w.mode == "seq" {
+		// no timers, no waits in these modes: storage calls that never return are a deadlock
+		e.Violate(w.prop(), "stuck", "[%s backend] storage calls are outstanding but no goroutine can run any more: %s", w.be.Kind, strings.Join(e.RT.All(), "; "))
+		return true
+	}
 	e.Inconclusive("quiet horizon reached with work remaining: " + strings.Join(e.RT.All(), "; "))
 	return true
 }
